@@ -80,4 +80,10 @@ def generate(rng, tier):
         emit(f, types, len(blocks) > 0, len(blocks))
         for _ in range(6):
             emit(f[:rng.randint(0, len(f))], types[:2], True)
+    # offsets beyond 64 KiB and 128 KiB (block lengths are 16 bits, file offsets are not)
+    for ver, cks in ((1, False), (2, True)):
+        blocks = [(1, rand_bytes(rng, 40000)), (2, rand_bytes(rng, 40000)), (7, b"x"), (1, rand_bytes(rng, 100)), (3, rand_bytes(rng, 65535)), (9, rand_bytes(rng, 5))]
+        f = make_file(blocks, ver, cks)
+        emit(f, [1, 2, 3, 7, 9, 4], True, len(blocks))
+        emit(f[:-3], [9, 3], True, len(blocks))
     return out
